@@ -4,6 +4,8 @@ import copy
 import sys
 
 import lena
+import lena.context
+import lena.flow
 from lena.core import LenaTypeError, LenaValueError
 
 
